@@ -20,7 +20,7 @@
 //!   `t` report stored · `r` lock released · `s` done signal sent · `T` infrastructure timeout
 //! output: the decisions, `;`-separated: `req <Why> started|deferred`, `done <Why> started`,
 //!   `done idle|locked`, `spawn`, `skip empty-map`, `reported`, `releasing`, `signalled`.
-use std::{sync::Arc, time::{Duration, Instant}};
+use std::time::{Duration, Instant};
 
 use iroh::{
     Endpoint, RelayMode, RelayUrl,
@@ -36,7 +36,7 @@ const G_RELEASED: &str = "direct_addr:released";
 const GATES: [&str; 3] = [G_STARTED, G_REPORTED, G_RELEASED];
 /// A real net report against the local relay takes well under this.
 const SETTLE: Duration = Duration::from_secs(25);
-const QUIET: Duration = Duration::from_millis(150);
+const QUIET: Duration = Duration::from_millis(50);
 
 fn gate_of(c: char) -> Option<&'static str> {
     match c {
@@ -295,8 +295,6 @@ impl C25 {
                 (Some('l'), Some(g)) => {
                     if gate::parked(g) > 0 {
                         gate::release(g);
-                        let before = counts(&trace::since(from));
-                        let _ = before;
                         // the released task moves on: wait until it is parked again / finished
                         std::thread::sleep(Duration::from_millis(2));
                         timeout |= !sess.wait(from, SETTLE, |_| true);
@@ -432,6 +430,5 @@ impl Prop for C25 {
 }
 
 fn main() {
-    let _ = Arc::new(());
     run(C25 { session: None });
 }
